@@ -111,6 +111,11 @@ func (x *Exec) buildVC(o *Obligation) *VC {
 	if _, ok := symTab["ix"]; ok {
 		vc.Asserts = append(vc.Asserts, ixAxiom())
 	}
+	vc.Asserts = append(vc.Asserts, jsonAxioms()...)
+	vc.Asserts = append(vc.Asserts, uuidAxioms()...)
+	if _, ok := symTab["unix_epoch"]; ok {
+		vc.Asserts = append(vc.Asserts, Gt(unixEpoch(), Int(0)))
+	}
 	if _, ok := symTab["walkObj"]; ok && usesSymbol(append(append([]*Term{}, vc.Asserts...), o.Goal), "walkObj") {
 		vc.Asserts = append(vc.Asserts, x.walkAxiom())
 	}
